@@ -180,7 +180,14 @@ const shadowLocalTS = uint64(1) << 62 // model timestamp of a steady-state local
 func runLoopCase(c LoopCase, o *vcore.Obs) (*loopStats, error) {
 	st := &loopStats{appAt: map[string]int{}}
 	env := lm.New(64<<20, 24)
-	defer env.Close()
+	var ndForClose *Node
+	defer func() {
+		if ndForClose != nil {
+			ndForClose.CloseEnv()
+		} else {
+			env.Close()
+		}
+	}()
 	b := fault.NewBucket()
 	conf := BaseConfig("a")
 	conf.StorageRetryCount = 4
@@ -206,6 +213,7 @@ func runLoopCase(c LoopCase, o *vcore.Obs) (*loopStats, error) {
 		}
 	}
 	nd := NewNode("a", env, h, conf, lc, syncer.Options{ReceiveOnly: c.ReceiveOnly, Hooks: hk})
+	ndForClose = nd
 	defer nd.Forget()
 	defer func() {
 		nd.Stop()
@@ -875,14 +883,10 @@ func runLoopCase(c LoopCase, o *vcore.Obs) (*loopStats, error) {
 						// one is only published after the previous one was fetched (the receiver skips a snapshot
 						// that is superseded before its download started) - so wait for the previous ones first.
 						waitDl := func(target int) bool {
-							deadline := time.Now().Add(20 * time.Second)
-							for time.Now().Before(deadline) {
-								if done, _ := nd.Downloads(); done >= target {
-									return true
-								}
-								time.Sleep(100 * time.Microsecond)
-							}
-							return false
+							return WaitFor(20*time.Second, func() bool {
+								done, _ := nd.Downloads()
+								return done >= target
+							})
 						}
 						if !waitDl(dlBase + peerSeq) {
 							return st, fmt.Errorf("%s: the peer snapshots published so far were not all downloaded within 20 s\n%s", where, goroutinesOf("lightningstream/syncer/receiver"))
